@@ -295,7 +295,10 @@ func connAccessorsCopy(p *core.Prog, r *core.Run, m *echModel, rule string) {
 				n++
 				shared := ""
 				for _, a := range p.X(ret.Results[i]).Alts() {
-					if a.Op == "field" && a.Any(func(x *core.Expr) bool {
+					// a copy: slices.Clone, bytes.Clone, append onto nothing (Clip,
+					// re-slicing and the like hand out the same array)
+					copied := a.Op == "call" && (a.Name == "slices.Clone" || a.Name == "bytes.Clone" || a.Name == "append" && len(a.Args) > 0 && a.Args[0].Op == "const")
+					if !copied && a.Any(func(x *core.Expr) bool {
 						return x.Op == "field" && (x.Obj == m.fConn["inner"] || x.Obj == m.fConn["outer"])
 					}) {
 						shared = short(a)
